@@ -68,16 +68,35 @@ func guarded(r *hx.Run, construct, desc string, body func() outcome) {
 	}
 }
 
-func par(fs ...func()) {
+// par runs the jobs in goroutines released together and waits for all of them.  A panic inside a job is recovered
+// and returned (a panic in a goroutine of the code under test must not take the harness down).
+func par(fs ...func()) (panics []string) {
 	var wg sync.WaitGroup
+	var mu sync.Mutex
+	start := make(chan struct{})
 	for _, f := range fs {
 		wg.Add(1)
 		go func() {
 			defer wg.Done()
-			f()
+			<-start
+			if p := hx.Safely(f); p != "" {
+				mu.Lock()
+				panics = append(panics, p)
+				mu.Unlock()
+			}
 		}()
 	}
+	close(start)
 	wg.Wait()
+
+	return panics
+}
+
+// parMust turns recovered panics of the jobs into a panic of the scenario body (reported by guarded as an oracle failure).
+func parMust(fs ...func()) {
+	if ps := par(fs...); len(ps) > 0 {
+		panic(strings.Join(ps, " | "))
+	}
 }
 
 // region derived variable /////////////////////////////////////////////////////////////////////////////////////////
@@ -182,7 +201,7 @@ func stressDVar(r *hx.Run, f []string) {
 				})
 			}
 		}
-		par(jobs...)
+		parMust(jobs...)
 		vals := make([]int, n)
 		for i := range in {
 			vals[i] = in[i].Get()
@@ -222,7 +241,7 @@ func stressInherit(r *hx.Run, f []string) {
 				}
 			})
 		}
-		par(jobs...)
+		parMust(jobs...)
 		a, got := src.Get(), v.Get()
 		o.lines = append(o.lines, fmt.Sprintf("q dvar sum %d %d", a, got))
 		if a != got {
@@ -299,7 +318,7 @@ func stressDSet(r *hx.Run, f []string) {
 				}
 			})
 		}
-		par(jobs...)
+		parMust(jobs...)
 		union := map[int]bool{}
 		parts := []string{}
 		for _, l := range live {
@@ -352,7 +371,7 @@ func stressSub(r *hx.Run, f []string) {
 				}
 			})
 		}
-		par(jobs...)
+		parMust(jobs...)
 		parts := []string{}
 		exp := []int{}
 		for _, x := range src.ToSlice() {
@@ -422,7 +441,7 @@ func stressCounter(r *hx.Run, f []string) {
 				}
 			})
 		}
-		par(jobs...)
+		parMust(jobs...)
 		vals, exp := []int{}, 0
 		for _, m := range live {
 			x := vars[m.v].Get()
@@ -520,7 +539,7 @@ func stressSortedT[E elemType](r *hx.Run, f []string, less bool) {
 				}
 			})
 		}
-		par(jobs...)
+		parMust(jobs...)
 
 		return sortedQuiescence(w, desc)
 	})
@@ -577,7 +596,7 @@ func stressEvict(r *hx.Run, f []string) {
 				}
 			})
 		}
-		par(jobs...)
+		parMust(jobs...)
 		last := st.LastEvictedSlot()
 		seen := map[string]bool{}
 		var parts []string
@@ -635,7 +654,7 @@ func stressWG(r *hx.Run, f []string) {
 				}
 			})
 		}
-		par(jobs...)
+		parMust(jobs...)
 		if wg.WasTriggered() {
 			o.fails = append(o.fails, failure{"wait-group", strings.Join(f, " ") + ": triggered while the guard element was still pending",
 				map[string]string{"construct": "WaitGroup", "trigger": "early-trigger", "mode": "stress"}})
